@@ -336,3 +336,40 @@ def run_nav(ctx, n, drv=None, max_pos=60):
     if cases:
         ctx.sample(dict(stream='nav', text=cases[0][1][:100], answer=cases[0][2][:200]))
     return mm
+
+
+def run_endpos(ctx, n, drv=None):
+    """Leaf.end_pos of the implementation vs the Gallina model EndPos.end_pos (proved = walking the value) on leaves of parsed texts
+    and on synthetic values full of line separators"""
+    from parso.tree import Leaf
+    drv = drv or Driver()
+    cases = []
+    for i in range(n):
+        r = gens.rng(ctx.seed, 'endpos', i)
+        if i % 3 == 0:
+            v = gens.lines_case(ctx.seed, 'endpos-val', i)
+            cases.append((v, r.randint(1, 9), r.randint(0, 12)))
+        else:
+            kind, code = gens.text_case(ctx.seed, 'endpos-text', i)
+            try:
+                m = parso.parse(code)
+            except Exception:
+                continue
+            leaf = m.get_first_leaf()
+            k = 0
+            while leaf is not None and k < 40:
+                if '\n' in leaf.value or '\r' in leaf.value or k % 7 == 0:
+                    cases.append((leaf.value, leaf.start_pos[0], leaf.start_pos[1]))
+                leaf = leaf.get_next_leaf()
+                k += 1
+    reqs = ['endpos %d %d %s' % (l, c, impl.enc_str(v)) for v, l, c in cases]
+    outs = drv.run(reqs)
+    mm = []
+    for i, ((v, l, c), o) in enumerate(zip(cases, outs)):
+        e = '%d %d' % Leaf(v, (l, c)).end_pos
+        ctx.count('endpos')
+        if '\n' in v or '\r' in v:
+            ctx.nontrivial(('endpos', v, l, c))
+        if e != o:
+            mm.append(Mismatch('endpos', i, dict(value=v, cps=[ord(x) for x in v], line=l, column=c), e, o))
+    return mm
